@@ -266,6 +266,15 @@ pub fn perm_base_opts(seed: u64, i: usize, rich: bool) -> Def {
     if rng.chance(1, 3) {
         def.extra_logos_items.push("export_dir = \"target/logos-graphs\"".into());
     }
+    if rng.chance(1, 8) {
+        // a single-valued item given twice with different values: whatever the verdict, it must not depend on the order
+        let (a, b) = *rng.pick(&[("crate = ::logos", "crate = other_logos"), ("export_dir = \"target/a\"", "export_dir = \"target/b\""), ("extras = VExtras", "extras = u8"),
+            ("error = VErr", "error = u8"), ("utf8 = true", "utf8 = false"), ("crate = a::b", "crate = ::logos")]);
+        def.extra_logos_items.retain(|it| it.split(' ').next() != a.split(' ').next());
+        def.extra_logos_items.push(a.into());
+        def.extra_logos_items.push(b.into());
+        def.family = "perm-duplicate-item".into();
+    }
     if rich && rng.chance(1, 3) {
         // generic enum: concrete types and the source lifetime are given by #[logos] items
         match rng.below(5) {
@@ -708,6 +717,16 @@ pub enum X5<'a, N, V> {
     A(N),
     #[token("b", |lex| vec![(lex.slice(), lex.slice())])]
     B(V),
+}
+"#,
+    // a user callback that shares its name with a generated item of the tail-call lexer
+    r#"fn state1<'s>(lex: &mut Lexer<'s, X6>) -> usize { lex.slice().len() }
+#[derive(Logos)]
+pub enum X6 {
+    #[regex("a+", state1)]
+    A(usize),
+    #[token("b")]
+    B,
 }
 "#,
     // function pointer with elided (higher-ranked) lifetimes
